@@ -227,8 +227,11 @@ class YncaConnection:
         function_: str | None,
         value: str | None,
     ):
-        for callback in self._message_callbacks:
-            callback(status, subunit, function_, value)
+        # Iterate over a copy since callbacks can be (un)registered while iterating
+        # (from within a callback or from another thread) which would raise a RuntimeError
+        for callback in tuple(self._message_callbacks):
+            if callback in self._message_callbacks:
+                callback(status, subunit, function_, value)
 
     def connect(
         self,
